@@ -336,6 +336,11 @@ def w_two_grids(ctx, rng, i):
     ctx.case(("grids", sel, fa, fb), sample=dict(sel=sel, fs_sequence=[fa, fb, fa]) if i < 2 else None)
 
 
+def FORM_TWINS():
+    import opticomlib.devices as dv
+    return [(dv, ["PD"])]
+
+
 WORKLOADS = [
     Workload("deterministic", w_deterministic, 700, 40000),
     Workload("invariance", w_invariance, 300, 20000),
